@@ -46,7 +46,7 @@ def _c05_parts(tier):
 def _c06_parts(tier):
     from sim.engines import c06
     q = tier == "quick"
-    return [{"engine": "c06", "params": c06.default_params(tier), "runs": 3_000 if q else 60_000,
+    return [{"engine": "c06", "params": c06.default_params(tier), "runs": 2_500 if q else 60_000,
              "per_fork": 1, "wall_s": 120 if q else 1500, "run_timeout_s": 120}]
 
 
@@ -76,7 +76,26 @@ def _c19_parts(tier):
              "per_fork": 1, "wall_s": 90 if q else 1500}]
 
 
+def _c07_parts(tier):
+    from sim.engines import c07
+    q = tier == "quick"
+    return [{"engine": "c07", "params": c07.default_params(tier), "runs": 6_000 if q else 200_000,
+             "per_fork": 1, "wall_s": 120 if q else 1800, "run_timeout_s": 180}]
+
+
 SPECS = {
+    "C07": {
+        "level": "exploration",
+        "parts": _c07_parts,
+        "rule": "case = (2-3 tasks drawn from a stratum, schedule); distinct = stratum x blake2b of the schedule projected on "
+                "shared-state accesses (sequence of (thread, file:line) at which ownership of shared state changed hands); "
+                "non-trivial = at least one pre-emption happened and both threads touched shared state",
+        "real_vs_stub": {"real": RENDER_REAL["real"] + ["real threading.Thread objects executing the real library code"],
+                         "stub": RENDER_REAL["stub"] + ["thread scheduler (baton: one runnable thread at a time, seeded switch points "
+                                                        "at line events in library files)"]},
+        "assumptions": ["interleavings are explored at line granularity in the library's own files only",
+                        "solo results come from a sibling process forked from the same pristine image"],
+    },
     "C19": {
         "level": "exploration",
         "parts": _c19_parts,
@@ -214,6 +233,16 @@ MANIFEST_META = {
         "level_note": "Trusted: gc.collect() + weakrefs as reachability oracle; module-level containers + gc object count as "
                       "growth measure; BaseException faults out of scope.",
     },
+    "C07": {
+        "engine": "thread-sim", "design_ref": "DESIGN.md 4/C07, 3.6",
+        "technique": "deterministic simulation of threads: baton-passing real threads, sys.settrace line events in library files as "
+                     "pre-emption points, seeded pre-materialised schedules (memoryless / PCT / targeted at shared-state lines), "
+                     "solo-vs-scheduled oracle, shrinking of the schedule to a replay file",
+        "level_text": "Seeded exploration of interleavings of 2-3 render / compile / first-access tasks at line granularity; each "
+                      "thread must return its solo result and the shared caches / registries must end as the solo runs leave them.",
+        "level_note": "Trusted: line granularity (no intra-line or Django-internal switches); locks created by the library become "
+                      "scheduler-aware SimLocks through the module's `threading` attribute; solo run as the specification.",
+    },
     "C14": {
         "engine": "render-sim", "design_ref": "DESIGN.md 4/C14",
         "technique": _DST.format(what="element-mode programs x history prefixes x id streams, plus a depth knob (chains to 2000)",
@@ -243,7 +272,6 @@ NOT_APPLICABLE = {
     "C02": "pure function of (tag text, context): the parser/resolver reads no shared state, id, cache, clock or file; there is "
            "no schedule, history or fault for a simulator to sample (input-space property; generative testing territory)",
     "C03": "not claimed yet (build in progress)",
-    "C07": "not claimed yet (build in progress)",
     "C08": "render_dependencies is a pure bytes->bytes function given the set of component classes; the middleware's async "
            "wrapper awaits once and calls the same synchronous function; no history, schedule or fault dimension",
     "C09": "the lexer is a pure function of the template source (tag_re is swapped once at start-up, not per render)",
